@@ -562,10 +562,89 @@ def rule_H1(prog, fixture=False):
                 res.add(key, VIOLATED, "%s:%d" % (rel, rets[0].line), "%s output" % f.short,
                         "the returned frame does not depend on any carried state (%s): every call starts from rest, a transient appears at "
                         "each frame boundary" % ", ".join(state_fields), func=f.name, extra={"props": h1_props})
+    # the same shortcut clause for processors written as a free function over an implementation struct
+    # ( _process(AgcImpl& agc, const base_array<T>& x) behind Agc::process ): the state is what the reference parameter points to
+    n_free = 0
+    for f in sorted(prog.functions.values(), key=lambda f: (f.file, f.line, f.name)):
+        if f.get("implicit") or f.file.endswith("coverage.cc") or f.kind != "function" or f.get("lambda"):
+            continue
+        rel = prog.rel(f.file)
+        if not fixture and not (rel.startswith("lib/") or rel.startswith("include/")):
+            continue
+        inputs = [q for q in f.params if is_container_type(q.get("t", ""))]
+        states = [q for q in f.params if q.get("ref") and not re.search(r"\bconst\b", q.get("t", "")) and not is_container_type(q.get("t", ""))
+                  and re.sub(r"\s*&$", "", q.get("t", "")).strip() in prog.classes]
+        if not inputs or not states:
+            continue
+        in_names = {q["n"] for q in inputs}
+        flow = Flow(f, prog, control=False)
+        for st in states:
+            writes = _param_state_writes(f, st["id"])
+            if not writes:
+                continue
+            n_free += 1
+            h1_props = ["C06"] + (["C20"] if ("/audio/" in rel or rel.endswith("agc.cpp")) else [])
+            f.blocks
+            all_rets = [n for n in f.walk() if n.k == "ReturnStmt" and not any(a.k == "LambdaExpr" for a in n.ancestors())]
+            for ri, r in enumerate(all_rets):
+                rl = f.block_of(r)
+                if rl is None:
+                    continue
+                data_conds = []
+                for fact in f.facts_at(r):
+                    if fact.belief:
+                        continue
+                    for (c, pol) in atoms_of(fact.cond, fact.pol):
+                        if any(a[0] == "parm" and a[1] in in_names and a[2] == "content" for a in flow.deps(c)):
+                            data_conds.append(c)
+                key = "H1:%s:%s:shortcut%d" % (fkey(f), st["n"], ri + 1)
+                if not data_conds:
+                    continue
+                reached = False
+                for wn in writes:
+                    wl = f.block_of(wn)
+                    if wl is None:
+                        continue
+                    if (wl[0] == rl[0] and wl[1] < rl[1]) or (wl[0] != rl[0] and rl[0] in f.reachable(wl[0])):
+                        reached = True
+                if not reached:
+                    res.add(key, VIOLATED, "%s:%d" % (rel, r.line), "%s updates the state behind '%s' for every frame" % (f.short, st["n"]),
+                            "the return at line %d is taken only when %s holds for the samples of the frame, and nothing on the way to it "
+                            "writes the state behind '%s' (written at line %d on the other paths): frames selected by their contents "
+                            "bypass the state update, so the result depends on how the stream is framed"
+                            % (r.line, data_conds[0].text()[:80], st["n"], writes[0].line), func=f.name, extra={"props": h1_props})
+                else:
+                    res.add(key, DISCHARGED, "%s:%d" % (rel, r.line), "%s updates the state behind '%s' for every frame" % (f.short, st["n"]),
+                            "the data-dependent return lies behind a state write", func=f.name, extra={"props": h1_props})
     res.stats["stream_processors"] = n_proc
+    res.stats["free_function_processors"] = n_free
     if n_proc == 0 and not fixture:
         res.broken.append("anchor vanished: no process() method with array-valued state")
     return res
+
+
+def _param_state_writes(f, pid):
+    """nodes that write the object a reference parameter points to: assignments to its members, non-const member calls on them"""
+    def rooted(e):
+        e = e.strip_all()
+        while e.k in ("MemberExpr", "ArraySubscriptExpr") and e.c:
+            e = e.c[0].strip_all()
+        return e.k == "DeclRefExpr" and e.decl and e.decl.get("id") == pid
+    out = []
+    for n in f.walk():
+        if any(a.k == "LambdaExpr" for a in n.ancestors()):
+            continue
+        if n.k in ("BinaryOperator", "CompoundAssignOperator") and n.op and n.op.endswith("=") and n.op not in ("==", "!=", "<=", ">=") and n.c:
+            l = n.c[0].strip_all()
+            if l.k == "MemberExpr" and rooted(l):
+                out.append(n)
+        elif n.k == "UnaryOperator" and n.op in ("++", "--") and n.c and n.c[0].strip_all().k == "MemberExpr" and rooted(n.c[0]):
+            out.append(n)
+        elif n.k in ("CXXMemberCallExpr", "CXXOperatorCallExpr") and n.callee and "cls" in n.callee and not n.callee.get("const") and not n.callee.get("static"):
+            obj = n.call_object() if n.k == "CXXMemberCallExpr" else (n.c[1] if len(n.c) > 1 else None)
+            if obj is not None and obj.strip_all().k == "MemberExpr" and rooted(obj):
+                out.append(n)
+    return out
 
 
 # =================================================================================================
